@@ -5,6 +5,7 @@ events" wire format and falcon's public documentation of Response.text/data/medi
 - not from falcon's code.  A *recipe* is a JSON-able dict (see checks/c05.py, gen_*).
 
     status   ['int', n] | ['line', 'NNN phrase'] | ['digits', 'NNN'] | ['enum', n]
+             | ['bytes', 'NNN phrase' or 'NNN']   (assigned as a byte string, as falcon's own suite does)
     text     None | str            data   None | bytes (latin-1 str in JSON)
     media    ['unset'] | ['set', json value]
     stream   None | {'kind', 'chunks': [bytes...], 'raise_at': k|None, ...}
@@ -32,6 +33,8 @@ def status_value(spec):
     kind, v = spec
     if kind == 'enum':
         return http.HTTPStatus(v)
+    if kind == 'bytes':
+        return v.encode('latin-1')
     return v
 
 
@@ -41,7 +44,7 @@ def status_line_ok(spec, line):
         return False
     if int(line[:3]) != status_code(spec):
         return False
-    if spec[0] == 'line':
+    if spec[0] == 'line' or (spec[0] == 'bytes' and ' ' in spec[1]):
         return line == spec[1]      # documented: a status line string is passed through
     return True
 
